@@ -43,6 +43,7 @@ struct World {
   ll runMax = 0;        // running max of observed memoryAllocated()
   ll upper = 0;         // sound upper bound for maxMemoryAllocated()
   unsigned pat = 1;
+  bool devHost = false;  // device created with memory: {use_host_pointer: true}
 };
 
 static const occa::dtype_t& dtypeOf(ll sel, int &sz) {
@@ -209,7 +210,9 @@ static bool runCase(const Case &c, Ctx &ctx) {
   ORACLE = envOr("VERIF_ORACLE", "C03");
   World w;
   bool useOmp = !c.empty() && c[0].a.size() && (c[0].a.back() & 64);
-  w.dev = occa::device(std::string(useOmp ? "{mode: 'OpenMP'}" : "{mode: 'Serial'}"));
+  w.devHost = isO("C05") && !c.empty() && c[0].a.size() && (c[0].a.back() & 32) && (c[0].a.back() & 16);
+  w.dev = occa::device(std::string(useOmp ? "{mode: 'OpenMP'" : "{mode: 'Serial'") + (w.devHost ? ", memory: {use_host_pointer: true}}" : "}"));
+  if (w.devHost) ctx.cls("device-wide-use_host_pointer");
   w.pool[0] = w.dev.createMemoryPool();
   w.poolLive[0] = true;
   bool ok = true;
@@ -364,9 +367,10 @@ static bool runCase(const Case &c, Ctx &ctx) {
       int dsz = 1;
       const occa::dtype_t &dt = dtypeOf(A(3), dsz);
       const ll n = 1 + A(1) % 300;
-      // use_host_pointer is only meaningful with a source pointer; own_host_pointer is only passed without
-      // use_host_pointer (ownership transfer of a wrapped pointer is not part of the property)
-      const bool withSrc = A(2) & 1, useHost = withSrc && (A(2) & 2), own = !useHost && (A(2) & 4);
+      // use_host_pointer with a source wraps the source; without one (or inherited from the device's memory
+      // properties, or through clone()) the device allocates itself.  own_host_pointer is passed only when the device
+      // allocated the memory (ownership transfer of a caller's pointer is not part of the property).
+      const bool withSrc = A(2) & 1, useHost = (A(2) & 2) || w.devHost, own = (!withSrc) && (A(2) & 4);
       Alloc al; al.hostOwned = NULL; al.shadow.assign(n * dsz, 0);
       fill(al.shadow, 0, al.shadow.size(), w.pat);
       occa::json props;
@@ -375,22 +379,24 @@ static bool runCase(const Case &c, Ctx &ctx) {
         src = occa::sys::malloc(n * dsz);
         memcpy(src, al.shadow.data(), n * dsz);
       }
-      if (useHost) props["use_host_pointer"] = true;
+      if (A(2) & 2) props["use_host_pointer"] = true;
       if (own) props["own_host_pointer"] = true;
       al.mem = w.dev.malloc(n, dt, src, props);
       al.counted = n * dsz;
       if (useHost) {
-        // the device wraps the host pointer instead of allocating.  The statement can be read both ways
+        // With use_host_pointer in effect the statement can be read both ways for the bytes of a *wrapped* source
         // ("malloc counts" / "wrapped memory counts nothing"): accept either while live, but whatever was
-        // added must be subtracted again at release.
+        // added must be subtracted again at release (checked by the ledger at every later step).
         const ll delta = (ll) w.dev.memoryAllocated() - before;
         if (delta != 0 && delta != n * dsz) return ctx.fail("malloc(use_host_pointer) changed memoryAllocated() by " + std::to_string(delta));
+        if (!withSrc && delta != n * dsz) return ctx.fail("malloc(use_host_pointer, no source) allocates on the device but memoryAllocated() changed by " + std::to_string(delta));
         al.counted = delta;
-        ctx.cls("malloc:use_host_pointer"); ctx.nontrivial = true;
-        al.hostOwned = src;     // harness keeps ownership
+        ctx.cls(withSrc ? "malloc:use_host_pointer" : "malloc:use_host_pointer-without-source"); ctx.nontrivial = true;
+        if (withSrc) al.hostOwned = src;     // harness keeps ownership of a wrapped source
       } else if (withSrc) {
         occa::sys::free(src);
       }
+      if (withSrc && useHost) { /* contents are the source's */ } else if (withSrc) { /* copied by malloc */ }
       if (!withSrc) al.mem.copyFrom(al.shadow.data());
       w.allocs.push_back(al);
       break;
@@ -400,10 +406,10 @@ static bool runCase(const Case &c, Ctx &ctx) {
       size_t i = (size_t) (A(1) % (ll) w.allocs.size());
       if (!w.allocs[i].mem.isInitialized()) continue;
       Alloc al; al.hostOwned = NULL; al.shadow = w.allocs[i].shadow;
-      occa::json srcProps = w.allocs[i].mem.properties();
-      if (srcProps.get("use_host_pointer", false)) continue;   // clone() reuses the source's properties (would wrap a NULL src)
+      // clone() reuses the source's properties (incl. use_host_pointer) but passes no host pointer: the device allocates
       al.mem = w.allocs[i].mem.clone();
       al.counted = (ll) al.shadow.size();
+      if (w.allocs[i].mem.properties().get("use_host_pointer", false)) { ctx.cls("clone-of-host-pointer-memory"); ctx.nontrivial = true; }
       w.allocs.push_back(al);
       ctx.cls("clone");
       break;
